@@ -336,7 +336,7 @@ pub fn tracegen(opts: &Opts) -> i32 {
                 1 => rng.range(8100, 9000),
                 2 => 1,
                 // on-disk size (30 + key + value) an exact number of blocks, or one byte either side
-                9 => (4096 * rng.range(1, 2) - 30 - k.len() as u64) + rng.below(3) - 1,
+                9 => (4096 * (rng.range(1, 2) + (30 + k.len() as u64) / 4096) - 30 - k.len() as u64) + rng.below(3) - 1,
                 3 | 4 => rng.range(600, 3900),
                 _ => rng.range(1, 400),
             } as usize;
